@@ -118,6 +118,9 @@ func buildTree(par []int, aliasMask, optMask, clash int, sameName bool, exec boo
 		}
 		cmds[posNode-1].Pos = []*decl.PosArg{{Field: "First", Type: ft}, {Field: "Rest", Type: decl.TStrings}}
 		cmds[posNode-1].PosRequired = "yes"
+		if posNode == 3 {
+			cmds[posNode-1].PosRequired = "" // the third node's int positional is optional: a conversion fault is then the only fault
+		}
 	}
 	for i, c := range cmds {
 		if c.SubOptional && len(c.Cmds) == 0 {
